@@ -570,7 +570,8 @@ pub fn c10_transports(v: &Verdicts, cases: &[(Who, Vec<(String, String)>)], budg
             if let Some(d) = m.get("db") {
                 let cur = d.get_value("$$token".to_string()).map(|v| v.value);
                 if cur.as_deref() != Some("tok") {
-                    d.set_value(&nundb::bo::Change::new("$$token".to_string(), "tok".to_string(), -1));
+                    // (forced: the corpus may also have pushed the key's version to the i32 limit, where a plain set is refused)
+                    d.set_value_version(&"$$token".to_string(), &"tok".to_string(), 0, nundb::bo::ValueStatus::New, 0, 0, 0);
                 }
             }
         }
